@@ -20,6 +20,7 @@ class ModuleInfo(object):
         self.tree = ast.parse(self.source, filename=path)
         self.is_package = os.path.basename(path) == '__init__.py'
         self.defs = {}          # name -> list of defining statements (last wins)
+        self.star_imports = []  # (level, module) of `from X import *`
         self._collect(self.tree.body)
         self.classes = {}
 
@@ -42,7 +43,10 @@ class ModuleInfo(object):
                     self.defs[(a.asname or a.name.split('.')[0])] = st
             elif isinstance(st, ast.ImportFrom):
                 for a in st.names:
-                    self.defs[a.asname or a.name] = st
+                    if a.name == '*':
+                        self.star_imports.append((st.level, st.module))
+                    else:
+                        self.defs[a.asname or a.name] = st
             elif isinstance(st, ast.Try):
                 # "try: import X / except ImportError: fallback": Python 3 takes the body
                 self._collect(st.body)
@@ -77,10 +81,11 @@ class ClassInfo(object):
         self.node = node
         self.bases = list(bases)
         self.builtin = builtin
+        self.outer = None
         self.members = {}
         if node is not None:
             for st in node.body:
-                if isinstance(st, ast.FunctionDef):
+                if isinstance(st, (ast.FunctionDef, ast.ClassDef)):
                     self.members[st.name] = st
                 elif isinstance(st, ast.Assign):
                     for t in st.targets:
@@ -90,6 +95,8 @@ class ClassInfo(object):
 
     @property
     def qualname(self):
+        if self.outer is not None:
+            return self.outer.qualname + '.' + self.name
         return (self.module.name + '.' if self.module else '') + self.name
 
     def mro(self):
